@@ -46,7 +46,7 @@ void sim_config_from_case(const J &c, SimConfig &sc) {
     if (s.has("dev")) { for (auto &d : s["dev"].a) g_devs.push_back({d.a[0].U(), (int)d.a[1].I()}); sc.dev = g_devs.data(); sc.ndev = g_devs.size(); }
     if (s.has("jumps")) for (auto &d : s["jumps"].a) if (sc.njump < 4) { sc.jump_at[sc.njump] = d.a[0].U(); sc.jump_ns[sc.njump] = d.a[1].U(); sc.njump++; }
     if (s.has("stall")) { sc.stall_at = s["stall"].a[0].U(); sc.stall_tid = (int)s["stall"].a[1].I(); sc.stall_len = s["stall"].a[2].U(); }
-    sc.fine_period = (uint64_t)s.geti("fine", 0);
+    sc.fine_period = (uint64_t)s.geti("fine", 0); sc.mem_period = (uint64_t)s.geti("mem", 0);
     if (s.has("api_stall")) { sc.api_stall_permille = (int)s["api_stall"].a[0].I(); sc.api_stall_len = s["api_stall"].a[1].U(); }
     sc.record_trace = (int)s.geti("record", 1);
     sc.cores = (int)m.geti("cores", 4); sc.sockets = (int)m.geti("sockets", 1); sc.cpuinfo_mode = (int)m.geti("cpuinfo", 0);
@@ -63,7 +63,7 @@ void add_sim_stats() {
     s.set("alloc_faults_fired", st->alloc_faults_fired); s.set("thread_faults_fired", st->thread_faults_fired); s.set("eintr_fired", st->eintr_fired);
     s.set("spurious_fired", st->spurious_fired); s.set("eperm_fired", st->eperm_fired); s.set("jumps_fired", st->jumps_fired); s.set("stall_fired", st->stall_fired);
     s.set("max_runnable", st->max_runnable); s.set("dev_inapplicable", st->dev_inapplicable); s.set("alloc_counter", sim_alloc_counter()); s.set("thread_create_counter", sim_thread_create_counter());
-    s.set("nthreads", sim_nthreads()); s.set("fine_preemptions", st->fine_preemptions); s.set("fine_calls", st->fine_calls);
+    s.set("nthreads", sim_nthreads()); s.set("fine_preemptions", st->fine_preemptions); s.set("fine_calls", st->fine_calls); s.set("mem_preemptions", st->mem_preemptions); s.set("mem_accesses", st->mem_accesses);
     g_result.set("sim", s);
     if (g_case["sim"].geti("emit_threads", 0)) {   // start routines of the simulated threads (image-relative), for diagnostics
         J t = J::arr();
@@ -89,7 +89,7 @@ void finish() {
 extern "C" char __executable_start;
 void world_fatal(const char *cls, const char *detail) {
     g_result.set("outcome", cls); g_result.set("detail", detail);
-    if (!strcmp(cls, "DEADLOCK")) {   // wait-for signature: where every blocked task waits (image-relative return addresses; the driver symbolises)
+    if (!strcmp(cls, "DEADLOCK") || !strcmp(cls, "LIVELOCK")) {   // wait-for signature: where every blocked task waits (image-relative return addresses; the driver symbolises)
         J a = J::arr(); uintptr_t base = (uintptr_t)&__executable_start;
         for (int t = 0; t < sim_nthreads(); t++) {
             uintptr_t pcs[12]; size_t n = sim_blocked_pcs(t, pcs, 12); if (!n) continue;
@@ -151,6 +151,7 @@ int main(int argc, char **argv) {
     else if (w == "dec") run_dec_world();
     else if (w == "srm") run_srm_world();
     else if (w == "seg") run_seg_world();
+    else if (w == "aomenc") run_aomenc_world();
     else { fprintf(stderr, "unknown world\n"); return 66; }
     finish();
 }
